@@ -606,6 +606,22 @@ def emit_section(section: Section, indent: int = 0, format_options: FormatOption
     return "\n".join(lines)
 
 
+def _literal_zone_field_lines(key_line: str, indent_str: str, lzv: LiteralZoneValue) -> list[str]:
+    """Lines of a KEY:: field whose value is a literal zone, laid out as emit_assignment does.
+
+    The fence opens on the line after the key (inline ``KEY::```...`` is not readable),
+    fence lines carry the field's indent and content lines are verbatim.
+    """
+    opening = f"{indent_str}{lzv.fence_marker}"
+    if lzv.info_tag:
+        opening += lzv.info_tag
+    lines = [key_line, opening]
+    if lzv.content:
+        lines.append(lzv.content)
+    lines.append(f"{indent_str}{lzv.fence_marker}")
+    return lines
+
+
 def emit_meta(meta: dict[str, Any], format_options: FormatOptions | None = None) -> str:
     """Emit META block.
 
@@ -643,8 +659,14 @@ def emit_meta(meta: dict[str, Any], format_options: FormatOptions | None = None)
                 nested_value = value[nested_key]
                 if is_absent(nested_value):
                     continue
+                if isinstance(nested_value, LiteralZoneValue):
+                    content_lines.extend(_literal_zone_field_lines(f"    {nested_key}::", "    ", nested_value))
+                    continue
                 nested_value_str = emit_value(nested_value, indent=2)
                 content_lines.append(f"    {nested_key}::{nested_value_str}")
+        elif isinstance(value, LiteralZoneValue):
+            # Issue #235: same layout as emit_assignment (emit_value's inline form is not readable)
+            content_lines.extend(_literal_zone_field_lines(f"  {key}::", "  ", value))
         else:
             value_str = emit_value(value, indent=1)
             content_lines.append(f"  {key}::{value_str}")
